@@ -37,7 +37,20 @@ def run(run):
             rj, rm = 'dblo %d' % ju, 'dblo %d' % mi
             with guard(run, 'binary join/meet of concepts %d, %d' % (a, b), [pc.line, rj, rm]):
                 x, y = cs[a], cs[b]
-                j1, j2, m1, m2 = x.join(y), x | y, x.meet(y), x & y
+                try:
+                    j1, j2, m1, m2 = x.join(y), x | y, x.meet(y), x & y
+                except TypeError as e:       # raised by the operator protocol in this very frame
+                    run.fail('| / & of concepts %d, %d' % (a, b), 'raised TypeError: %s' % e, 'a concept', [pc.line, rj, rm], extra)
+                for res_, name_ in ((j1, 'join'), (m1, 'meet')):
+                    if res_ is NotImplemented or not hasattr(res_, 'extent'):
+                        run.fail('Concept.%s of concepts %d, %d does not return a concept' % (name_, a, b), repr(res_), 'a concept', [pc.line, rj, rm], extra)
+                # x <= y  iff  x | y is y  iff  x & y is x   (operators and named methods)
+                le = E[a] & E[b] == E[a]
+                facts = {'x <= y': bool(x <= y), 'x.implies(y)': bool(x.implies(y)) if x.implies(y) is not NotImplemented else 'NotImplemented',
+                         'y >= x': bool(y >= x), 'y.subsumes(x)': bool(y.subsumes(x)) if y.subsumes(x) is not NotImplemented else 'NotImplemented',
+                         '(x | y) is y': j2 is y, '(x & y) is x': m2 is x}
+                if any(v != le for v in facts.values()):
+                    run.fail('order and join / meet disagree for concepts %d, %d (extent inclusion: %r)' % (a, b, le), facts, le, [pc.line, rj, rm], extra)
                 if j1 is not j2 or m1 is not m2:
                     run.fail('method and operator disagree for concepts %d, %d' % (a, b), None, None, [pc.line], extra)
                 jl, ml = L.join([x, y]), L.meet([x, y])
